@@ -17,6 +17,7 @@
 package main
 
 import (
+	"strings"
 	"flag"
 	"fmt"
 	"go/ast"
@@ -96,7 +97,7 @@ func main() {
 	flag.Parse()
 	what := flag.Args()
 	if len(what) == 0 {
-		what = []string{"setters", "effects", "wrappers", "sites", "pure"}
+		what = []string{"setters", "effects", "wrappers", "sites", "pure", "purex2j"}
 	}
 	if *out == "" {
 		fail("-out required")
@@ -135,6 +136,12 @@ func main() {
 			writeFile(*out, "Sites_gen.v", genSites(core))
 		case "pure":
 			writeFile(*out, "Pure_gen.v", genPure(core))
+		case "purex2j":
+			for _, sp := range subs {
+				if sp.name == "x2j" && strings.HasSuffix(sp.dir, "x2j-wrapper") {
+					writeFile(*out, "PureX2j_gen.v", genPureX2j(core, sp))
+				}
+			}
 		default:
 			fail("unknown output %q", w)
 		}
